@@ -176,6 +176,40 @@ theorem pass_split (r : EvReq) : ∀ (b : List Ev) (s : ESt), Asc b →
           refine ⟨e, pendingAt r s.cursor es, by simp [pendingAt, hw1], ?_⟩
           simp only; omega
 
+/-- the cursor after a fetch is the cursor before it or the number of an event of the buffer -/
+theorem pass_cursor_src (r : EvReq) : ∀ (b : List Ev) (s : ESt),
+    (pass r b s).1.cursor = s.cursor ∨ ∃ e ∈ b, e.num = (pass r b s).1.cursor := by
+  intro b
+  induction b with
+  | nil => intro s; exact .inl rfl
+  | cons e es ih =>
+    intro s
+    have lift : ∀ s1 : ESt, (s1.cursor = s.cursor ∨ s1.cursor = e.num) →
+        (pass r es s1).1.cursor = s.cursor ∨ ∃ x ∈ e :: es, x.num = (pass r es s1).1.cursor := by
+      intro s1 hs1
+      rcases ih s1 with h | ⟨x, hx, hn⟩
+      · rcases hs1 with h1 | h1
+        · exact .inl (h.trans h1)
+        · exact .inr ⟨e, by simp, (h.trans h1).symm⟩
+      · exact .inr ⟨x, by simp [hx], hn⟩
+    cases hr : r.inRange s.cursor e with
+    | false =>
+      simp only [pass, hr, Bool.false_eq_true, ↓reduceIte]
+      exact lift s (.inl rfl)
+    | true =>
+      cases hpa : r.passes e with
+      | false =>
+        simp only [pass, hr, hpa, Bool.false_eq_true, ↓reduceIte]
+        exact lift { s with cursor := e.num } (.inr rfl)
+      | true =>
+        by_cases hfit : s.used + e.size ≤ s.lim
+        · simp only [pass, hr, hpa, hfit, ↓reduceIte]
+          exact lift _ (.inr rfl)
+        · have hp : pass r (e :: es) s = (s, false) := by
+            simp only [pass, hr, hpa, hfit, ↓reduceIte]
+          rw [hp]
+          exact .inl rfl
+
 /-! ## the loop over an environment of buffers, and its trace -/
 
 /-- the record of one fetch: the buffer it iterated, the cursor before and after, the events it
@@ -225,6 +259,7 @@ structure FetchOk (r : EvReq) (f : Fetch) : Prop where
   le : ∀ e ∈ f.emitted, e.num ≤ f.next
   done : f.finished = true → pendingAt r f.next f.buf = []
   stuck : f.finished = false → pendingAt r f.next f.buf ≠ []
+  src : f.next = f.cursor ∨ ∃ e ∈ f.buf, e.num = f.next
 
 /-- **the specification of the whole event section over a live queue**: a chain of fetches, each
 starting with the cursor the one before ended with; only the last one reaches the end of its buffer -/
@@ -235,7 +270,7 @@ inductive LiveSpec (r : EvReq) : Nat → List Fetch → Prop
 
 theorem fetchOf_ok (r : EvReq) (b : List Ev) (s : ESt) (h : Asc b) : FetchOk r (fetchOf r b s) := by
   obtain ⟨h1, h2, h3, h4, h5⟩ := pass_split r b s h
-  refine ⟨h1, h2, h3, h4, ?_⟩
+  refine ⟨h1, h2, h3, h4, ?_, pass_cursor_src r b s⟩
   intro hf
   obtain ⟨e, rest, he, _⟩ := h5 hf
   show pendingAt r (pass r b s).1.cursor b ≠ []
@@ -371,6 +406,49 @@ theorem LiveSpec.complete {r : EvReq} {k : Nat} {tr : List Fetch} (h : LiveSpec 
     · have := ih hlt (fun g hg => hkept g (by simp [hg]))
       simp only [emittedAll, List.flatMap_cons, List.mem_append] at this ⊢
       exact .inr this
+
+/-- **completeness relative to the fetch, for the whole answer**: an event that is in the queue at
+some fetch, selected, behind the cursor of that fetch, and not evicted before the reader reaches it,
+is reported by that fetch or a later one.  (An event evicted between two fetches before the cursor
+reached it is legitimately absent: it is in no buffer the reader sees any more.) -/
+theorem LiveSpec.complete_from {r : EvReq} {k : Nat} {pre post : List Fetch} {f : Fetch}
+    (h : LiveSpec r k (pre ++ f :: post)) {x : Ev} (hx : x ∈ f.buf) (hp : r.passes x = true)
+    (hmax : x.num ≤ r.nextMax) (hk : f.cursor < x.num)
+    (hkept : ∀ g ∈ post, g.cursor < x.num → x ∈ g.buf) : x ∈ emittedAll (f :: post) := by
+  refine (LiveSpec.suffix pre h).complete hp hmax hk ?_
+  intro g hg hlt
+  rcases List.mem_cons.mp hg with rfl | hg
+  · exact hx
+  · exact hkept g hg hlt
+
+/-- the cursor a fetch starts with is the cursor of the request or the number of an event that an
+earlier fetch saw — hence below the number of every event pushed after those fetches -/
+theorem LiveSpec.cursor_src {r : EvReq} : ∀ (pre : List Fetch) {k : Nat} {f : Fetch} {post : List Fetch},
+    LiveSpec r k (pre ++ f :: post) → f.cursor = k ∨ ∃ g ∈ pre, ∃ e ∈ g.buf, e.num = f.cursor := by
+  intro pre
+  induction pre with
+  | nil => intro k f post h; exact .inl h.head
+  | cons g pre ih =>
+    intro k f post h
+    have hg : g.cursor = k := h.head
+    have hok : FetchOk r g := h.all_ok g (by simp)
+    rcases ih (LiveSpec.tail h (by simp)) with h1 | ⟨g2, hg2, e, he, hn⟩
+    · rcases hok.src with h2 | ⟨e, he, hn⟩
+      · exact .inl (h1.trans (h2.trans hg))
+      · exact .inr ⟨g, by simp, e, he, hn.trans h1.symm⟩
+    · exact .inr ⟨g2, by simp [hg2], e, he, hn⟩
+
+/-- **events pushed while the answer is being sent ARE included**: an event that is newer than
+everything the earlier fetches saw (a fresh event number), selected, in the range of the request, in
+the queue at some fetch and not evicted before the reader reaches it, is reported -/
+theorem LiveSpec.complete_new {r : EvReq} {k : Nat} {pre post : List Fetch} {f : Fetch}
+    (h : LiveSpec r k (pre ++ f :: post)) {x : Ev} (hx : x ∈ f.buf) (hp : r.passes x = true)
+    (hmax : x.num ≤ r.nextMax) (hk : k < x.num) (hnew : ∀ g ∈ pre, ∀ e ∈ g.buf, e.num < x.num)
+    (hkept : ∀ g ∈ post, g.cursor < x.num → x ∈ g.buf) : x ∈ emittedAll (f :: post) := by
+  refine h.complete_from hx hp hmax ?_ hkept
+  rcases LiveSpec.cursor_src pre h with h1 | ⟨g, hg, e, he, hn⟩
+  · omega
+  · have := hnew g hg e he; omega
 
 /-! ## the model meets the specification -/
 
